@@ -168,3 +168,88 @@ def py_slice(start, stop, n):
     if hi < lo:
         hi = lo
     return (lo, hi)
+
+
+# ---------------------------------------------------------------------------------------------
+# SGR: an independent table of the Select-Graphic-Rendition codes (ECMA-48 8.3.117 plus the common
+# xterm/VTE extensions the library documents).  group 0 is "reset", -1 "not an SGR code we know".
+G_RESET, G_BOLD, G_ITALIC, G_UNDERLINE, G_OVERLINE, G_BLINK, G_SWAP, G_HIDE, G_STRIKE = 0, 1, 2, 3, 4, 5, 6, 7, 8
+G_FONT, G_SPACING, G_BOX, G_FG, G_BG, G_ULCOLOR = 9, 10, 11, 12, 13, 14
+K_APPLY, K_CLEAR, K_RESET = 1, 2, 3
+
+
+def _sgr_table():
+    t = {0: (G_RESET, K_RESET)}
+    t[1] = (G_BOLD, K_APPLY)
+    t[2] = (G_BOLD, K_APPLY)
+    t[3] = (G_ITALIC, K_APPLY)
+    t[4] = (G_UNDERLINE, K_APPLY)
+    t[5] = (G_BLINK, K_APPLY)
+    t[6] = (G_BLINK, K_APPLY)
+    t[7] = (G_SWAP, K_APPLY)
+    t[8] = (G_HIDE, K_APPLY)
+    t[9] = (G_STRIKE, K_APPLY)
+    for c in range(10, 21):
+        t[c] = (G_FONT, K_APPLY)
+    t[21] = (G_UNDERLINE, K_APPLY)
+    t[22] = (G_BOLD, K_CLEAR)
+    t[23] = (G_ITALIC, K_CLEAR)
+    t[24] = (G_UNDERLINE, K_CLEAR)
+    t[25] = (G_BLINK, K_CLEAR)
+    t[26] = (G_SPACING, K_APPLY)
+    t[27] = (G_SWAP, K_CLEAR)
+    t[28] = (G_HIDE, K_CLEAR)
+    t[29] = (G_STRIKE, K_CLEAR)
+    for c in range(30, 39):
+        t[c] = (G_FG, K_APPLY)
+    t[39] = (G_FG, K_CLEAR)
+    for c in range(40, 49):
+        t[c] = (G_BG, K_APPLY)
+    t[49] = (G_BG, K_CLEAR)
+    t[50] = (G_SPACING, K_CLEAR)
+    t[51] = (G_BOX, K_APPLY)
+    t[52] = (G_BOX, K_APPLY)
+    t[53] = (G_OVERLINE, K_APPLY)
+    t[54] = (G_BOX, K_CLEAR)
+    t[55] = (G_OVERLINE, K_CLEAR)
+    t[58] = (G_ULCOLOR, K_APPLY)
+    t[59] = (G_ULCOLOR, K_CLEAR)
+    for c in range(90, 98):
+        t[c] = (G_FG, K_APPLY)
+    for c in range(100, 108):
+        t[c] = (G_BG, K_APPLY)
+    return t
+
+
+SGR = _sgr_table()
+# the code that clears each group (what a terminal needs to see to switch the effect off)
+CLEAR_CODE = {G_BOLD: 22, G_ITALIC: 23, G_UNDERLINE: 24, G_OVERLINE: 55, G_BLINK: 25, G_SWAP: 27, G_HIDE: 28,
+              G_STRIKE: 29, G_FONT: 10, G_SPACING: 50, G_BOX: 54, G_FG: 39, G_BG: 49, G_ULCOLOR: 59}
+
+
+def sgr_group(code):
+    """effect group of an SGR code (-1: unknown).  Engine twin: pyvc.summaries.summ_sgr_group."""
+    e = SGR.get(code)
+    if e is None:
+        return -1
+    return e[0]
+
+
+def sgr_kind(code):
+    e = SGR.get(code)
+    if e is None:
+        return 0
+    return e[1]
+
+
+def first_code_of_text(t):
+    """the integer value of the first ';'-separated parameter of a setting text, or -1"""
+    head = t.split(';', 1)[0].strip()
+    try:
+        return int(head)
+    except ValueError:
+        return -1
+
+
+def sgr_group_of_text(t):
+    return sgr_group(first_code_of_text(t))
